@@ -27,6 +27,7 @@ open CaddyModel.C14
 #print axioms autosave_only_if_persist_enabled
 #print axioms autosave_only_accepted_configs
 #print axioms autosave_recovers_after_interrupted_autosave
+#print axioms autosave_exact_document
 -- the resume side (cmdRun --resume, --envfile, AppConfigDir)
 #print axioms writerDir_is_env_after_files
 #print axioms resume_reads_where_autosave_writes
@@ -46,5 +47,7 @@ open CaddyModel.C14
 #print axioms ca_write_order_matches_source
 #print axioms autosave_program_matches_source
 #print axioms resume_read_matches_source
+#print axioms change_config_runs_before_success_matches_source
 #print axioms inPlace_store_not_atomic
 #print axioms resume_before_envfiles_fails
+#print axioms autosave_id_shortcut_fails
